@@ -117,6 +117,19 @@ func (w *world) emitDriver() string {
 		}
 		fmt.Fprintf(&sb, "    pure ({ %s }, ts)\n\n", strings.Join(inits, ", "))
 	}
+	if len(w.effOrd) > 0 {
+		// effect traces are results only: encoded, never decoded
+		sb.WriteString("instance : Codec Eff where\n  enc v := match v with\n")
+		for _, n := range w.effOrd {
+			var as, encs []string
+			for i := range w.effs[n] {
+				as = append(as, fmt.Sprintf("a%d", i))
+				encs = append(encs, fmt.Sprintf("enc a%d", i))
+			}
+			fmt.Fprintf(&sb, "    | .%s %s => [%s] ++ %s\n", n, strings.Join(as, " "), leanStr(n), strings.Join(encs, " ++ "))
+		}
+		sb.WriteString("  dec _ := none\n\n")
+	}
 	// oracle decoder
 	sb.WriteString("def decOra (ts : List String) : Option (Ora × List String) := do\n")
 	var inits []string
